@@ -160,12 +160,16 @@ func verifC01SvcRunScript(rt *rapid.T, k *kit.Case, s *verifC01SvcSim, o verifC0
 		prev, had := n.known[c]
 		cached := had && n.ready[c] && prev.Epoch == m.Epoch && prev.LeaderEpoch == m.LeaderEpoch && prev.RouteGeneration == m.RouteGeneration &&
 			prev.Leader == m.Leader && prev.WriteFence == m.WriteFence
+		// an older route generation of the leader epoch the node already holds:
+		// the reactor answers from its last installed authority without a quorum
+		// install, nothing becomes writable (the quorum log keeps the newer fence)
+		olderRoute := had && verifC01SvcFenceOrder(m, prev) == 0 && m.RouteGeneration < prev.RouteGeneration
 		reach := s.reachable(id)
 		d := s.deliver(id, c, m)
 		if d.stale {
 			st.staleRefused++
 		}
-		if d.accepted && d.err == nil && m.Leader == id {
+		if d.accepted && d.err == nil && m.Leader == id && !olderRoute {
 			if cached {
 				s.flags["re-delivery of the metadata a ready leader already holds (cached, not judged)"] = true
 				return d
